@@ -453,15 +453,32 @@ func genC05(g *Gen, c09 bool) {
 		for i := 0; i < n/2; i++ {
 			ta := randMap(r, tc, 0)
 			tb, _ := mutateTree(r, tc, ta, 0).(map[string]interface{})
+			var base []ucfg.Option
+			if r.P(1, 3) {
+				// settings of the target that are references to sibling namespaces, merged with
+				// objects for the references and extensions of the namespaces in one call: what a
+				// reference stands for while it is merged into depends on what was merged before
+				base = []ucfg.Option{ucfg.PathSep("."), ucfg.VarExp}
+				ta = map[string]interface{}{
+					"primary": map[string]interface{}{"host": "h1", "l": []interface{}{"x"}},
+					"second":  map[string]interface{}{"host": "h2"},
+					"backup":  "${primary}", "aa": "${second}", "zz": "${primary}", "k": randScalar(r)}
+				tb = map[string]interface{}{}
+				for _, kk := range []string{"primary", "second", "backup", "aa", "zz"} {
+					if r.P(2, 3) {
+						tb[kk] = map[string]interface{}{fmt.Sprintf("n%d", r.Intn(3)): randScalar(r), "l": []interface{}{"y"}}
+					}
+				}
+			}
 			pol := r.Intn(len(policyOpts))
 			seen := map[string]bool{}
 			var coqs, descs []string
 			for k := 0; k < runs/2; k++ {
-				dst, err := ucfg.NewFrom(ta)
+				dst, err := ucfg.NewFrom(ta, base...)
 				if err != nil {
 					break
 				}
-				var opts []ucfg.Option
+				opts := append([]ucfg.Option{}, base...)
 				if p := policyOpts[pol]; p.opt != nil {
 					opts = append(opts, p.opt)
 				}
@@ -470,7 +487,7 @@ func genC05(g *Gen, c09 bool) {
 					c, d = coqErr(err), descErr(err)
 				} else {
 					nd := ucfg.VerifDump(dst)
-					u, _ := unpackAny(dst)
+					u, _ := unpackAny(dst, base...)
 					c, d = "(OV "+coqValue(nd)+")", descValue(nd)+" => "+descTree(u)
 					c = c + "|" + coqOTree(u)
 				}
